@@ -1,40 +1,57 @@
 # Table of claimed checks (read by gen_manifest.py).
-TV = "TLA+ specification checked by TLC; trace validation of executions recorded from the library against the specification (Trace.tla)"
+MC = "TLA+ state-machine specification (OpenSkill.tla) model-checked by TLC on bounded instances; "
+TV = "trace validation: executions recorded from the library are checked by TLC against the specification's operators (Trace.tla)"
+RP = "; TLC-enumerated transitions replayed into the library"
 HP = "; 40-digit real arithmetic inside TLC (module override HPReal)"
-GR = "; relational formula over groups of sibling calls, sibling-hood decided by the specification"
+GR = "; relational formulas over groups of sibling calls whose sibling-hood the specification decides"
 
-check("C01", "Every recorded rate() call is accepted by the trace specification only if each returned (mu, sigma) lies within a "
-      "first-order double-precision budget of the 40-digit TLA+ transcription of the model's published update rule. The "
-      "continuous domain is sampled (boundary-biased); the discrete structure (ties, shapes, encodings, options, floor/clamp regimes) is class-counted and a missing class fails the run.",
-      TV + HP)
-check("C02", "Every recorded rate() result is checked slot by slot against the input projection: shape, id, name, class, the slot's own "
-      "posterior (a posterior that matches another slot is reported as moved), and the passed objects all-updated or all-untouched.", TV + HP)
-check("C03", "Each game is rated under 8 differently written outcome arguments that the specification (Outcome!SameOrder) proves "
-      "order-equivalent; TLC demands bit-identical results. Encodings include float/int mixes, bools, -0.0, 1e15 and 2^53 neighbours, scores, omitted ranks.", TV + GR)
-check("C04", "For each game all n! team orders (n <= 4 quick, 5 thorough; sampled above) with member permutations are rated; TLC verifies "
-      "that the sibling really is the permuted game and compares every player's posterior within twice the budget; partial pairing "
-      "only for permutations that keep tied teams in order.", TV + GR + HP)
-check("C05", "Single-game direction clauses on every recorded rate() call, plus groups: two-team games under win/draw/loss (ordering, prior "
-      "between, draw direction with the TM allowance) and place exchanges in games without ties.", TV + GR + HP)
-check("C06", "Sigma bounds evaluated by TLC on every recorded rate() call over tau/limit_sigma at model and call level, kappa and gamma configurations.", TV + HP)
-check("C07", "Precision-weighted zero sum of the observed mu changes evaluated by TLC per game with the budget of the posteriors and the TM tie allowance.", TV + HP)
-check("C08", "Random boundary-biased games on the whole numeric domain (up to 16 players per team, beta over six orders of magnitude): TLC "
-      "requires a normal return with finite numbers from the four operations.", TV)
-check("C09", "predict_win: distribution clauses per call; permuted presentations; mu increments from 1 ulp to 10 beta; exact one half for two identical teams.", TV + GR)
-check("C10", "predict_draw: range per call; order independence; two-team widening gaps; equalised totals.", TV + GR)
-check("C11", "predict_rank: rank/probability consistency on the returned floats incl. identical teams; rank + draw = 1 for n >= 3.", TV + GR)
-check("C12", "All three predictions within 1e-9 absolute of the 40-digit closed forms of Predict.tla.", TV + HP)
-check("C13", "A grammar of substituted values at every position of otherwise valid calls; the specification's WFRateCall/WFTeams (read from "
-      "the property's sentence) classifies each call; TLC requires TypeError/ValueError, no modified rating or model attribute on "
-      "rejection, and acceptance of every well-formed in-domain call.", TV)
-check("C14", "Model attributes projected before/after every call; the same call after different histories on a shared model, with other ids, "
-      "names and objects, must be bit-identical.", TV + GR)
-check("C15", "Model-level against per-call tau / limit_sigma (each alone, both, explicit None), t including 0 and 0.0: TLC verifies the effective options coincide and demands bit-identical results.", TV + GR)
-check("C16", "Rescaled (incl. powers of two) and shifted games: TLC verifies the sibling is the scaled/shifted game and compares rate (PL, BT) within twice the budget and all predictions within 1e-12.", TV + GR + HP)
-check("C18", "Comparisons, ordinal and sorted() on pairs with many equal ordinals and random floats, foreign operands of every kind, judged by Rel.tla.", TV)
-check("C19", "The same call on all five classes (TLC verifies the calls correspond): identical predictions, acceptance and exception class, "
-      "BT part = BT full on two teams, identical operation tables/signatures and hashes.", TV + GR)
-check("C20", "Constructors, deepcopy and twin leagues (live objects vs players rebuilt from stored (mu, sigma) before every game) judged by Rel.tla; bit-identical results.", TV + GR)
-check("C17", "v, w, vt, wt and the CDF are called on a dense sweep of [-40, 40] x log-spaced t, random points, +-64 ulp around every branch "
-      "threshold (located by bisection on the implementation's observable branch switch) and huge |x|; TLC judges each recorded call "
-      "against the exact V, W, V~, W~, Phi of Kernels.tla at 40 digits with the errors the property states.", TV + HP)
+check("C01", "MC_Lattice: every game over a cast of 4-5 rating objects x every weak order x option settings, five models: TLC checks the "
+      "design invariants and emits each transition, which is performed on the real classes and judged by Trace.tla - each returned "
+      "(mu, sigma) must lie within a first-order double-precision budget of the 40-digit TLA+ transcription of the published rule. "
+      "Plus recorded campaigns over the full numeric domain incl. its corners. The continuum is sampled; discrete structure is exhaustive "
+      "on the lattice and class-counted on the campaigns (a missing class fails the run).", MC + TV + RP + HP)
+check("C02", "Lattice transitions (all shapes over the cast x all weak orders, and all rank/score vectors over mixed values) and recorded "
+      "campaigns; every result judged slot by slot: shape, id, name, class, the slot's own posterior (another slot's posterior = moved; "
+      "another slot's prior sigma = clamp paired wrongly), inputs all-updated or all-untouched.", MC + TV + RP + HP)
+check("C03", "MC_Outcome: pipeline = rule for every tagged vector (TLC); OutcomeInt: the same for all integer values symbolically (Apalache, "
+      "auxiliary); every rank/score vector over mixed values emitted by TLC, grouped by weak order and replayed as sibling calls; recorded "
+      "groups with 8+ encodings per game (floats, bools, -0.0, 1e15, ints beyond 2^53, int/float pairs within one ulp, scores, omitted): "
+      "the specification proves the siblings order-equivalent and demands bit-identical results.", MC + TV + RP + GR)
+check("C04", "Inv_C04: the rule itself is equivariant on every lattice transition (reversed presentation recomputed at 1e-28). Code: all n! team "
+      "orders (n <= 4 quick, 5 thorough; sampled above) with member permutations; TLC verifies the sibling is the permuted game and compares "
+      "every player's posterior within twice the budget; partial pairing only for permutations keeping tied teams in order.", MC + TV + GR + HP)
+check("C05", "Inv_C05 on every lattice transition at 1e-30; replayed transitions and recorded campaigns judged for the single-game clauses; "
+      "groups: two-team games under win/draw/loss and place exchanges in games without ties.", MC + TV + RP + GR + HP)
+check("C06", "Inv_C06 on the lattice over tau/limit_sigma/kappa/gamma settings; replayed transitions, campaigns incl. domain corners, and league "
+      "histories in which every step is judged from the observed pre-state (which must be the previous post-state).", MC + TV + RP + HP)
+check("C07", "Inv_C07 (zero sum at 1e-30) on every lattice transition; replayed transitions and campaigns: zero sum of the observed mu changes "
+      "within the budget of the posteriors plus the Thurstone-Mosteller tie allowance.", MC + TV + RP + HP)
+check("C08", "Corners of the numeric domain (+-20 beta, sigma 1e-4..10 beta and 0 with tau > 0, 16-player teams, beta over six orders of magnitude, "
+      "kappa 1e-2..1e-8, favourite wins/loses/draws) and boundary-biased campaigns: normal return with finite numbers from the four operations.", TV)
+check("C09", "predict_win: distribution clauses per call; permuted presentations (also of live, re-assigned objects); mu increments from 1 ulp to "
+      "10 beta; exact one half for two identical teams; aliased lists; earlier calls of other model instances must change nothing.", TV + GR)
+check("C10", "predict_draw: range per call; order independence (fresh and live objects); two-team widening gaps; equalised totals.", TV + GR)
+check("C11", "predict_rank: rank/probability consistency on the returned floats incl. identical teams and near-ties (same roster summed in another order); rank + draw = 1 for n >= 3.", TV + GR)
+check("C12", "All three predictions within 1e-9 absolute of the 40-digit closed forms of Predict.tla: random games, games after other models' calls, "
+      "reconfigured live models, predictions on live re-rated objects in leagues.", TV + HP)
+check("C13", "MC_Grammar: TLC substitutes 20 values at every position of teams / ranks / scores of valid calls, adds structural variants, four "
+      "operations, five models; Inv_Grammar on the design; every transition replayed into the library and judged by WFRateCall/WFTeams "
+      "(read from the property's sentence): TypeError/ValueError, no modified rating or model attribute, acceptance of every well-formed in-domain call.", MC + TV + RP)
+check("C14", "MC_Threads: every interleaving of 2-3 callers' threads split at model accesses (ModelReadOnly, ResultIsSequential); MC_Seq: behaviours "
+      "of the state machine replayed on live objects; real threads pre-empted at every model access and at every library function call, their "
+      "event logs validated by TraceThreads.tla and their results against the sequential run; the same calls in three processes (hash seeds, "
+      "polluting earlier calls); histories; model and argument projections around every call.", MC + TV + RP + GR)
+check("C15", "Inv_C15 on the lattice of option settings (negative control: TauZeroFallsBack); replayed; groups: model-level against per-call tau / "
+      "limit_sigma (each alone, both, explicit None, by position), t including 0 and 0.0: bit-identical results.", MC + TV + RP + GR)
+check("C16", "Inv_C16: the rule is covariant under x3 scaling (PL, BT) and +7.5 shifts on every lattice transition at 1e-28. Code: rescaled (incl. "
+      "powers of two) and shifted games; TLC verifies the sibling is the scaled/shifted game; rate within twice the budget, predictions within 1e-12.", MC + TV + GR + HP)
+check("C17", "v, w, vt, wt and the CDF on a dense sweep of [-40, 40] x log-spaced t, random points, +-64 ulp around every branch threshold (located by "
+      "bisection on the implementation's observable branch switch), huge |x|, and call patterns (+-x back to back, repeated, interleaved); TLC "
+      "judges each recorded call against the exact V, W, V~, W~, Phi of Kernels.tla at 40 digits with the errors the property states.", TV + HP)
+check("C18", "Compare/Ordinal actions of the state machine in MC_Seq behaviours replayed on live objects; recorded comparisons of pairs with many "
+      "equal ordinals, foreign operands of every kind, ordinal(z), sorted(), and ask / edit in place / ask again sequences, judged by Rel.tla.", MC + TV + RP)
+check("C19", "Inv_C19 (BT part = full on two teams) on the lattice; the same call on all five classes (TLC verifies the calls correspond): identical "
+      "predictions, acceptance and exception class; identical comparisons incl. foreign operands, operation tables/signatures and hashes.", MC + TV + GR)
+check("C20", "NewRating/CreateRating/DeepCopy/Assign actions in MC_Seq behaviours replayed on live objects; constructors with None/0/-0.0/negative/huge "
+      "values; deepcopy of nested lists incl. a snapshot beside its live twin; twin leagues and mirror matches (live objects vs players rebuilt "
+      "from stored (mu, sigma)): bit-identical results.", MC + TV + RP + GR)
